@@ -1026,6 +1026,33 @@ func (env *SpecEnv) call(x *SCall) (Val, error) {
 			t = "(sarr " + v.T + ")"
 		}
 		return Val{T: "(and (>= " + t + " " + env.ex.loopPreRef[env.enclosingLoop().header] + ") (< " + t + " " + env.cur.nextRef + "))", S: SBool, Typ: boolT}, nil
+	case "visited":
+		// visited(k): inside the invariants of a loop that iterates over a map - key k has already been produced
+		if len(x.Args) != 1 || env.enclosingLoop() == nil {
+			return Val{}, fmt.Errorf("visited(k) is only meaningful in the invariants of a map iteration")
+		}
+		rng := env.ex.rangeOfLoop(env.enclosingLoop())
+		if rng == nil || !env.ex.useVisited {
+			return Val{}, fmt.Errorf("visited(k): the loop does not iterate over a map")
+		}
+		v, err := env.term(x.Args[0])
+		if err != nil {
+			return Val{}, err
+		}
+		return Val{T: "(select " + env.vc.heapGet(env.cur, env.ex.visitedOf(rng)) + " " + v.T + ")", S: SBool, Typ: boolT}, nil
+	case "evalcount":
+		// evalcount(f): number of calls made so far through function value f (calls through a function type under contract)
+		if len(x.Args) != 1 {
+			return Val{}, fmt.Errorf("evalcount takes one argument")
+		}
+		v, err := env.term(x.Args[0])
+		if err != nil {
+			return Val{}, err
+		}
+		if v.S != SInt {
+			return Val{}, fmt.Errorf("evalcount of a non-function value (sort %s)", v.S)
+		}
+		return Val{T: "(select " + env.vc.heapGet(env.cur, env.vc.evalCountHeap()) + " " + v.T + ")", S: SInt, Typ: intT}, nil
 	case "fresh":
 		// fresh(r): reference r was not allocated at function entry
 		v, err := env.term(x.Args[0])
